@@ -900,8 +900,8 @@ def _p_filter_scan(ex, n, args, kwargs):
     if len(args) != 3 or kwargs or not isinstance(args[0], Closure):
         fail(n, "filter_scan form")
     f, init, keys = args
-    if not (isinstance(keys, Vec) and keys.ety == "K"):
-        fail(n, "filter_scan over something else than a vector of keys")
+    if not (isinstance(keys, Vec) and keys.ety in ("K", "O")):
+        fail(n, "filter_scan over something else than a vector of keys / opaque rows")
     d = ex.depth
     cf = _flat_fields(init, n, "scan carry")
     names = [f"c{i}__{d}" for i in range(len(cf))]
@@ -919,7 +919,7 @@ def _p_filter_scan(ex, n, args, kwargs):
         for k, v in init.fields.items():      # static (None) fields are carried as they are
             if k not in carry.fields:
                 carry.fields[k] = v
-    out = ex.invoke(f, [carry, Sc("K", f"k__{d}")], {}, n)
+    out = ex.invoke(f, [carry, Sc(keys.ety, f"k__{d}")], {}, n)
     if not (isinstance(out, tuple) and len(out) == 2):
         fail(n, "scan body must return (carry, output)")
     c2 = _flat_fields(out[0], n, "scan carry")
